@@ -80,3 +80,20 @@ _reg(
     "DESIGN.md 3/C05",
     "Exploration over the registry and interface stress programs x naming/precision configurations; rules are those of the statement (count, order, names, dtype class, float width, int widening, rank, static dims, symbol names).",
 )
+
+_reg(
+    "C09",
+    "exploration",
+    "cases = registered testcases (single-precision variants: recursive DOUBLE scan of tensors, annotations, Cast/dtype "
+    "attributes; double-precision variants whose x64 jaxpr has only float64 floating avals: ORT vs JAX-x64 on float64 draws "
+    "incl. values not representable in float32, judged at eps = 2**-30) + 21 constant-provenance sentinel programs "
+    "(python / numpy-f64 constants at top level, in cond / fori / while / scan bodies, in an @onnx_function body) in both modes "
+    "+ 16 x64-flag histories (initial x64 off/on x flag off/on x {returns, user function raises, unsupported primitive, allclose}). "
+    "evaluations = models scanned + draws compared + flag histories; non-trivial = model with >= 1 node scanned, draw with >= 1 "
+    "finite element compared, or flag history whose intended outcome happened; distinct by (program, mode/class).",
+    (900, 800, 4000, 3500),
+    "artefact invariant (recursive element-type scan) + differential monitor vs JAX-x64 at 2**-30 + x64 flag state monitor around calls",
+    "DESIGN.md 3/C09",
+    "Exploration: every single-precision export is scanned for DOUBLE anywhere; double exports are compared with JAX-x64 at an accuracy "
+    "(7.5e-9 relative) that a float32 round trip cannot meet; the process-wide x64 flag is observed around every call.",
+)
